@@ -10,7 +10,56 @@ W = {'req': 2.5, 'rel': 1.5, 'query': 0.3, 'addmatch': 0.5, 'rmmatch': 0.2, 'sig
      'usignal': 3, 'close': 0.5, 'driver_other': 0.4, 'nodest': 0.3}
 
 
+NOC = "type='signal',sender='org.freedesktop.DBus',interface='org.freedesktop.DBus',member='NameOwnerChanged'"
+
+
+def slow_recipient(rng):
+    """a recipient that stops reading: the bus queues for it up to max_outgoing_bytes and then refuses (LimitsExceeded,
+    no delivery, no reply expectation); what was queued arrives, in order, when it reads again -- or is answered with
+    NoReply when it goes away"""
+    cfg = {'maxOutgoing': rng.choice([2000, 20000])}
+    if rng.random() < 0.4:
+        cfg['replyTimeoutMs'] = 400
+    rounds = [{'ops': {'1': [{'k': 'connect', 'uid': 0}, {'k': 'hello'}, {'k': 'addmatch', 'rule': NOC}]}},
+              {'ops': {'2': [{'k': 'connect', 'uid': 0}, {'k': 'hello'}]}},
+              {'ops': {'3': [{'k': 'connect', 'uid': 0}, {'k': 'hello'}, {'k': 'req', 'n': 'com.example.A', 'f': 0}]}}]
+    ser = {1: 1000, 2: 1000}
+
+    def big(s, dst, fl=0, ty=1):
+        ser[s] += 1
+        o = {'k': 'send', 'ty': ty, 'dst': dst, 'path': '/a', 'ifc': 'com.example.I', 'mem': 'Ma', 'sig': 'uay',
+             'body': [ser[s], [ser[s] % 251] * rng.choice([30000, 50000])], 'ser': ser[s], 'fl': fl}
+        return o
+
+    def small(s, dst, fl=0, ty=1):
+        ser[s] += 1
+        return {'k': 'send', 'ty': ty, 'dst': dst, 'path': '/a', 'ifc': 'com.example.I', 'mem': 'Mb', 'sig': 'u', 'body': [ser[s]],
+                'ser': ser[s], 'fl': fl}
+    rounds.append({'ops': {'3': [{'k': 'stall'}]}})
+    for _ in range(rng.choice([3, 4, 5])):
+        ops = {}
+        for s in rng.sample([1, 2], rng.choice([1, 1, 2])):
+            dst = rng.choice(['com.example.A', {'slot': 3}])
+            ops[str(s)] = [rng.choice([big, big, small])(s, dst, fl=rng.choice([0, 0, 0, 1]), ty=rng.choice([1, 1, 1, 4]))
+                           for _j in range(rng.choice([1, 2, 3]))]
+        rounds.append({'ops': ops})
+    if cfg.get('replyTimeoutMs') and rng.random() < 0.6:
+        rounds.append({'ops': {'1': [{'k': 'sleep', 'ms': 450}, {'k': 'query', 'q': 'list'}]}})
+    end = rng.random()
+    if end < 0.45:
+        rounds.append({'ops': {'3': [{'k': 'aclose'}]}})
+    else:
+        rounds.append({'ops': {'3': [{'k': 'unstall'}]}})
+        rounds.append({'ops': {'3': [small(1, {'slot': 1}, ty=4) | {'ser': 7001}]}})
+    for _ in range(2):
+        s = rng.choice([1, 2])
+        rounds.append({'ops': {str(s): [small(s, rng.choice(['com.example.A', {'slot': 3}, {'slot': 3 - s}]))]}})
+    return {'cfg': cfg, 'rounds': rounds}
+
+
 def gen(rng, i):
+    if i % 6 == 5:
+        return slow_recipient(rng)
     g = gen_bus.Gen(rng, nslots=3, nnames=2, w=W, eavesdrop=0.2 if i % 4 == 0 else 0.0)
     return g.scenario(nrounds=rng.choice([10, 14]), concurrency=0.55, burst=0.4)
 
